@@ -169,9 +169,15 @@ def cut_scope_grammar(rng):
         return ('tok', t)
     n = rng.randint(2, 3)
     inner = ('choice', [option(i == n - 1) for i in range(n)])
-    wrap = rng.choice(['group', 'group', 'opt', 'rep', 'named', 'skipgroup'])
+    wrap = rng.choice(['group', 'group', 'opt', 'rep', 'named', 'skipgroup', 'posrep', 'posjoin', 'plain-group', 'named-plain-group'])
+    t1, t2 = rng.choice(toks), rng.choice(toks)
+    cutseq = rng.choice([('seq', [('tok', t1), 'cut', ('tok', t2)]), ('seq', [('tok', t1), 'cut']), ('seq', [('group', ('seq', [('tok', t1), 'cut'])), ('tok', t2)])])
     inner_e = {'group': ('group', inner), 'opt': ('opt', inner), 'rep': ('rep', False, None, False, inner),
-               'named': ('named', False, 'n', ('group', inner)), 'skipgroup': ('skipgroup', inner)}[wrap]
+               'named': ('named', False, 'n', ('group', inner)), 'skipgroup': ('skipgroup', inner),
+               # a repetition that must match at least once, with the cut in its body: the cut must not outlive the repetition
+               'posrep': ('rep', True, None, False, cutseq), 'posjoin': ('rep', True, ('tok', ','), False, cutseq),
+               # a group without alternatives is transparent to cuts: the cut commits the enclosing option
+               'plain-group': ('group', cutseq), 'named-plain-group': ('named', False, 'n', ('group', cutseq))}[wrap]
     alt1 = ('seq', [inner_e, ('tok', 'x'), 'eof'])
     alts = [alt1]
     for _ in range(rng.randint(1, 2)):
